@@ -4,12 +4,16 @@ META = dict(
     title='Malformed or inconsistent input is rejected by an exception, never by a crash',
     technique='CBMC code contracts (DFCC) on mechanically extracted parse_entries functions: Parameters::get* are contract stubs answering arbitrary schema-valid values; postcondition "exception pending or representation invariant established"',
     level_text='Partial. Proof for every option string the parameter file may contain: Spherical::parse_entries either raises an exception or '
-               'sets the depth-method enum to the enumerator of the recognised option - no value leaves the field uninitialised.',
-    level_note='Trusted: translator, shims (std::string = handle determined by content for literals, arbitrary for file values), CBMC. Bytes -> JSON -> '
+               'sets the depth-method enum to the enumerator of the recognised option - no value leaves the field uninitialised. Proof for every '
+               'list length within the vector bound (3 quick / 8 thorough) and all values: Plume::parse_entries either raises an exception or leaves one cross-section depth, '
+               'semi-major axis, eccentricity and rotation angle per coordinate (what Plume::properties indexes by), and terminates for every length incl. 0; '
+               'PlumeModels::Temperature::Gaussian::parse_entries either raises an exception or leaves three per-depth lists of equal length.',
+    level_note='Trusted: translator, shims (std::string = handle determined by content for literals, arbitrary for file values), CBMC; the verified configuration is '
+               '-DNDEBUG (the one the pinned suite builds): WBAssert is compiled out. Parameters::get*/get_vector are contract stubs answering any value/list. Bytes -> JSON -> '
                'schema validation (rapidjson, Parameters::initialize) and every other parse_entries function are not under contract.',
-    scope='CoordinateSystems::Spherical::parse_entries',
-    not_covered=['JSON parsing and schema validation', 'length consistency of list-valued parameters (plume, gaussian, plate model tables: candidates of DESIGN 7.1, not re-found by the machinery)',
-                 'formatting/comment/key-order independence', 'uninitialised reads other than this enum field'],
+    scope='CoordinateSystems::Spherical::parse_entries, Features::Plume::parse_entries, Features::PlumeModels::Temperature::Gaussian::parse_entries',
+    not_covered=['JSON parsing and schema validation', 'length consistency of list-valued parameters of other features (oceanic plate model tables, slab/fault segment tables)',
+                 'formatting/comment/key-order independence', 'uninitialised reads other than the depth-method enum field', 'the Types::* declaration layer (schema bounds)'],
     enforced_elsewhere={},
 )
 UNITS = [
@@ -43,6 +47,12 @@ UNITS.append(dict(
         (PFN, 3): dict(contract='__CPROVER_assigns(wb_i3, wb_r3->data)\n__CPROVER_loop_invariant(wb_i3 <= wb_r3->n && wb_r3 == &this_->semi_major_axis_lengths)\n__CPROVER_decreases(wb_r3->n - wb_i3)'),
         (PFN, 4): _MODEL_LOOP('temperature_models'), (PFN, 5): _MODEL_LOOP('composition_models'),
         (PFN, 6): _MODEL_LOOP('grains_models'), (PFN, 7): _MODEL_LOOP('velocity_models')}))
+
+UNITS.append(dict(
+    name='gaussian_parse', enforce='Features_PlumeModels_Temperature_Gaussian_parse_entries', contracts='c12_gaussian_parse.c', harness='h_gaussian_parse',
+    targets=[dict(tu='source/world_builder/features/plume_models/temperature/gaussian.cc', qual='WorldBuilder::Features::PlumeModels::Temperature::Gaussian::parse_entries')],
+    stub_prefixes=['Parameters_'], replace=['Parameters_get__string__ret_basic_string_char', 'Parameters_get_vector__string__ret_double'],
+    defines={'WB_VEC_CAP': 2, 'WB_CAP_vec_double': 3}, defines_thorough={'WB_CAP_vec_double': 8}, expect_fail=['REACHABILITY-GUARD']))
 
 SPH = '{"version":"1.1", "coordinate system":{"model":"spherical", "depth method":"%s"}, "features":[]}'
 
@@ -94,8 +104,30 @@ def oracle_plume_lists(work):
     return dict(status='holds', detail='plumes with 1, 2 or 4 entries in any per-cross-section list (3 coordinates) are rejected by an exception')
 
 
+def oracle_gaussian_lists(work):
+    """a gaussian plume temperature model whose three per-depth lists differ in length is refused by an exception"""
+    import oracle
+    G = {"model": "gaussian", "centerline temperatures": [200, 300, 400], "gaussian sigmas": [0.3, 0.3, 0.3], "depths": [40e3, 60e3, 150e3]}
+    q = oracle.Q(plume_world(**{"temperature models": [G]}), work, name='gauss_ok')
+    try:
+        if q.construct_error:
+            return dict(status='error', detail='consistent gaussian model rejected: %s' % q.construct_error)
+    finally:
+        q.close()
+    for key in ['centerline temperatures', 'gaussian sigmas', 'depths']:
+        for short in (G[key][:1], G[key][:2], G[key] + [G[key][-1]]):
+            q = oracle.Q(plume_world(**{"temperature models": [dict(G, **{key: short})]}), work, name='gauss_bad')
+            try:
+                if not q.construct_error:
+                    return dict(status='violated', input={'temperature model': dict(G, **{key: short})},
+                                detail='gaussian plume temperature model with %d entries in "%s" and 3 in the other two lists is accepted without an exception (get_temperature indexes all three lists by the position in "depths": out-of-bounds read)' % (len(short), key))
+            finally:
+                q.close()
+    return dict(status='holds', detail='gaussian models with 1, 2 or 4 entries in one of the three lists are rejected by an exception')
+
+
 def native_oracle(witness, work, search_seed=None):
-    subs = dict(spherical_parse=oracle_depth_method, plume_parse=oracle_plume_lists)
+    subs = dict(spherical_parse=oracle_depth_method, plume_parse=oracle_plume_lists, gaussian_parse=oracle_gaussian_lists)
     order = [witness['unit']] if witness.get('unit') in subs else list(subs)
     details = []
     for u in order:
